@@ -60,8 +60,13 @@ def m_identity(ex, st, callee, args, dest_ty):
 def m_deref_identity(ex, st, callee, args, dest_ty):
     v = args[0]
     tgt = deref(ex, st, v)
-    if isinstance(tgt, (StrV, VecV)):
+    if isinstance(tgt, StrV):
         yield st, tgt
+    elif isinstance(tgt, VecV) and isinstance(v, Ref):
+        base = v  # keep a reference that points directly at the Vec model (iterators index into it)
+        while isinstance(ex.read(st, base.cell, base.projs), Ref):
+            base = ex.read(st, base.cell, base.projs)
+        yield st, base
     else:
         yield st, v
 
@@ -143,6 +148,18 @@ def m_from_residual(ex, st, callee, args, dest_ty):
         yield st, none()
 
 
+def m_opt_as_ref(ex, st, callee, args, dest_ty):
+    r = args[0]
+    v = deref(ex, st, r)
+    alts = {"None": ()}
+    if "Some" in v.alts and isinstance(r, Ref):
+        base = r
+        while isinstance(ex.read(st, base.cell, base.projs), Ref):
+            base = ex.read(st, base.cell, base.projs)
+        alts["Some"] = (Ref(base.cell, base.projs + (("downcast", "Some"), ("field", 0, None))),)
+    yield st, En("Option", v.disc, alts)
+
+
 def m_unwrap(ex, st, callee, args, dest_ty):
     v = _opt_like(deref(ex, st, args[0]) if isinstance(args[0], Ref) else args[0], callee)
     good, goodidx = ("Some", 1) if ("Some" in v.alts or "None" in v.alts) else ("Ok", 0)
@@ -220,6 +237,13 @@ def call_fn_value(ex, st, f, argv):
         f = deref(ex, st, f)
     if not isinstance(f, FnV):
         raise MirUnsupported("call of non-function value %r" % (f,))
+    if f.name == "@const":  # a sub-evaluator standing for an arbitrary expression: yields its designated symbolic value
+        yield Outcome("return", st, value=f.captures[0])
+        return
+    if f.name == "@model":  # python callback (state, argv) -> generator of (state, value)
+        for st2, v in f.captures[0](ex, st, argv):
+            yield Outcome("return", st2, value=v)
+        return
     b = ex.bodies.get(f.name) if f.name else None
     if b is None and f.name:
         b = ex.resolve(f.name)
@@ -647,6 +671,123 @@ def m_try_into(ex, st, callee, args, dest_ty):
     return ex.call(st, tgt, args, dest_ty)
 
 
+# ----------------------------------------------------------------------------- Vec / ranges
+
+
+def _vec_at(ex, st, r):
+    v = deref(ex, st, r)
+    if not isinstance(v, VecV):
+        raise MirUnsupported("Vec operation on %r" % (v,))
+    return v
+
+
+def m_vec_new(ex, st, callee, args, dest_ty):
+    yield st, VecV(z3.IntVal(0), ())
+
+
+def m_vec_len(ex, st, callee, args, dest_ty):
+    yield st, Sc(_vec_at(ex, st, args[0]).len, "usize")
+
+
+def m_vec_is_empty(ex, st, callee, args, dest_ty):
+    yield st, mk_bool(z3.simplify(_vec_at(ex, st, args[0]).len == 0))
+
+
+def m_vec_push(ex, st, callee, args, dest_ty):
+    r = args[0]
+    v = _vec_at(ex, st, r)
+    for st2, n in ex.enum_values(st, v.len, limit=len(v.items) + 2):
+        v2 = _vec_at(ex, st2, r)
+        ex.write(st2, r.cell, r.projs, VecV(z3.IntVal(n + 1), tuple(v2.items[:n]) + (args[1],), v2.elem_ty))
+        yield st2, UNIT
+
+
+def m_vec_pop(ex, st, callee, args, dest_ty):
+    r = args[0]
+    v = _vec_at(ex, st, r)
+    for st2, n in ex.enum_values(st, v.len, limit=len(v.items) + 2):
+        v2 = _vec_at(ex, st2, r)
+        if n == 0:
+            yield st2, none()
+        else:
+            ex.write(st2, r.cell, r.projs, VecV(z3.IntVal(n - 1), tuple(v2.items[:n - 1]), v2.elem_ty))
+            yield st2, some(v2.items[n - 1])
+
+
+def m_vec_index(ex, st, callee, args, dest_ty):
+    r = args[0]
+    v = _vec_at(ex, st, r)
+    i = args[1]
+    for st2 in ex.branch(st, i.e >= v.len):
+        yield Outcome("panic", st2, msg="index out of bounds: the len is %s but the index is %s" % (v.len, i.e))
+    for st2 in ex.branch(st, i.e < v.len):
+        for st3, k in ex.enum_values(st2, i.e, limit=len(v.items) + 2):
+            if k >= len(v.items):
+                raise MirUnsupported("Vec model shorter than a feasible index")
+            if isinstance(r, Ref):
+                yield st3, Ref(r.cell, r.projs + (("index", k),))
+            else:
+                yield st3, v.items[k]
+
+
+def m_range_into_iter(ex, st, callee, args, dest_ty):
+    yield st, args[0]
+
+
+def m_range_next(ex, st, callee, args, dest_ty):
+    r = args[0]
+    rng = deref(ex, st, r)
+    lo, hi = rng.fields[0], rng.fields[1]
+    for st2 in ex.branch(st, lo.e < hi.e):
+        ex.write(st2, r.cell, r.projs, Adt(rng.kind, rng.ty, (Sc(z3.simplify(lo.e + 1), lo.ty), hi)))
+        yield st2, some(lo)
+    for st2 in ex.branch(st, lo.e >= hi.e):
+        yield st2, none()
+
+
+def m_range_incl_new(ex, st, callee, args, dest_ty):
+    yield st, Adt("struct", "RangeInclusive", (args[0], args[1]))
+
+
+def m_range_contains(ex, st, callee, args, dest_ty):
+    rng = deref(ex, st, args[0])
+    x = deref(ex, st, args[1])
+    lo, hi = rng.fields[0], rng.fields[1]
+    incl = "RangeInclusive" in callee
+    yield st, mk_bool(z3.simplify(z3.And(x.e >= lo.e, x.e <= hi.e if incl else x.e < hi.e)))
+
+
+def m_box_new(ex, st, callee, args, dest_ty):
+    yield st, Ref(ex.new_cell(st, args[0], "box"))
+
+
+def m_ref_forward(ex, st, callee, args, dest_ty):
+    """std's forwarding impls `impl Trait for &T`: <&A as Trait<&B>>::m(a, b) = <A as Trait<B>>::m(*a, *b)"""
+    m = re.match(r"^<&(.+) as ([A-Za-z]+)(<&(.*)>)?>::(\w+)$", callee, re.S)
+    if not m:
+        return NotImplemented
+    tgt = "<%s as %s%s>::%s" % (m.group(1), m.group(2), "<%s>" % m.group(4) if m.group(4) else "", m.group(5))
+    argv = [ex.read(st, a.cell, a.projs) if isinstance(a, Ref) and isinstance(ex.read(st, a.cell, a.projs), Ref) else a for a in args]
+    return ex.call(st, tgt, argv, dest_ty)
+
+
+def m_format_stub(ex, st, callee, args, dest_ty):
+    """diagnostic text (null(...) traces, error messages) is no part of any property: empty string"""
+    yield st, StrV("")
+
+
+def m_tuple_cmp(ex, st, callee, args, dest_ty):
+    """<(A, B, ..) as Ord>::cmp / PartialOrd::partial_cmp on tuples of integers: lexicographic"""
+    a, b = deref(ex, st, args[0]), deref(ex, st, args[1])
+    r = z3.IntVal(0)
+    for x, y in reversed(list(zip(a.fields, b.fields))):
+        if not (isinstance(x, Sc) and isinstance(y, Sc)):
+            raise MirUnsupported("tuple comparison over %r" % (x,))
+        r = z3.If(x.e < y.e, z3.IntVal(-1), z3.If(x.e > y.e, z3.IntVal(1), r))
+    o = ordering(z3.simplify(r))
+    yield st, (some(o) if callee.endswith("partial_cmp") else o)
+
+
 def m_opaque_error(ex, st, callee, args, dest_ty):
     yield st, Opaque("Error", info=callee)
 
@@ -662,6 +803,8 @@ BASE_MODELS = [
     (R(r" as Clone>::clone$"), m_clone),
     (R(r"^<str as ToString>::to_string$|^<String as ToString>::to_string$|^<str as ToOwned>::to_owned$|^<String as From<&str>>::from$|^must_use::<.*>$|^<&str as Into<String>>::into$|^<&str as ToString>::to_string$"), m_clone),
     (R(r" as PartialEq(<.*>)?>::(eq|ne)$"), m_partial_eq),
+    (R(r"^<&.+ as (PartialEq|PartialOrd|Ord)(<&.*>)?>::\w+$"), m_ref_forward),
+    (R(r"^Option::<.*>::as_ref$"), m_opt_as_ref),
     (R(r"^Option::<.*>::is_some$"), m_is_some),
     (R(r"^Option::<.*>::is_none$"), m_is_none),
     (R(r"^Result::<.*>::is_ok$"), m_is_ok),
@@ -680,6 +823,7 @@ BASE_MODELS = [
     (R(r"^<(i|u)(\d+|size) as Default>::default$"), m_int_default),
     (R(r"^<(i|u)(\d+|size) as PartialOrd>::partial_cmp$"), m_int_partial_cmp),
     (R(r"^<(i|u)(\d+|size) as Ord>::cmp$"), m_int_cmp),
+    (R(r"^<\(.*\) as (Ord>::cmp|PartialOrd>::partial_cmp)$"), m_tuple_cmp),
     (R(r"^<(i|u)(\d+|size) as PartialOrd>::(lt|le|gt|ge)$"), m_int_ordop),
     (R(r"^core::num::<impl (i|u)(\d+|size)>::checked_(add|sub|mul)$"), m_checked_arith),
     (R(r"^std::f64::<impl f64>::trunc$"), m_f64_trunc),
@@ -695,8 +839,20 @@ BASE_MODELS = [
     (R(r"^Arguments::<'_>::from_str$"), m_fmt_from_str),
     (R(r"^Formatter::<'_>::write_fmt$"), m_write_fmt),
     (R(r"^Formatter::<'_>::write_str$"), m_write_str),
-    (R(r"^std::fmt::format$"), m_fmt_format),
+    (R(r"^std::fmt::format$|^format$|^alloc::fmt::format$"), m_fmt_format),
+    (R(r"^Arguments::<'_>::from_str_nonconst$"), m_fmt_from_str),
     (R(r" as ToString>::to_string$"), m_to_string_display),
+    (R(r"^Vec::<.*>::new$"), m_vec_new),
+    (R(r"^Vec::<.*>::len$|^core::slice::<impl \[.*\]>::len$"), m_vec_len),
+    (R(r"^Vec::<.*>::is_empty$|^core::slice::<impl \[.*\]>::is_empty$"), m_vec_is_empty),
+    (R(r"^Vec::<.*>::push$"), m_vec_push),
+    (R(r"^Vec::<.*>::pop$"), m_vec_pop),
+    (R(r"^<Vec<.*> as Index<usize>>::index$|^<\[.*\] as Index<usize>>::index$"), m_vec_index),
+    (R(r"^<std::ops::Range<.*> as IntoIterator>::into_iter$"), m_range_into_iter),
+    (R(r"^<std::ops::Range<.*> as Iterator>::next$"), m_range_next),
+    (R(r"^std::ops::RangeInclusive::<.*>::new$"), m_range_incl_new),
+    (R(r"^std::ops::Range(Inclusive)?::<.*>::contains::<.*>$"), m_range_contains),
+    (R(r"^Box::<.*>::new$"), m_box_new),
     (R(r"^<.* as (Try)?Into<.*>>::(try_)?into$"), m_try_into),
     (R(r"^DmntkError::new$| as Into<DmntkError>>::into$| as From<.*Error>>::from$"), m_opaque_error),
 ]
